@@ -1,4 +1,5 @@
 import Xp.Proofs.C03PT
+import Xp.Proofs.C03Ext
 import Xp.Model.C04
 /-
 C03 — a failing composition pipeline is never destructive; garbage collection is exact.
@@ -218,6 +219,40 @@ theorem never_stabilising_errs (cluster : List Xp.C04.ClusterObj) (f : Xp.C04.Fn
   | succ n ih =>
     obtain ⟨rsp, h1, h2, h3⟩ := hf req prev
     exact Or.inr ⟨rsp, h1, h2, h3, ih _ _⟩
+
+/-- The same with an invariant: it is enough that the requirements differ from the previous
+round's along the rounds actually played (`I` holds of the first round and is kept from one round
+to the next). `never_stabilising_errs` is the instance `I := fun _ _ => True`, whose hypothesis
+no deterministic function satisfies (take `prev := (f req).reqs`); this form is satisfiable, see
+the example below it. -/
+theorem never_stabilising_errs_inv (cluster : List Xp.C04.ClusterObj) (f : Xp.C04.Fn)
+    (I : Xp.C04.Request → List (String × Xp.C04.Sel) → Prop)
+    (hf : ∀ req prev, I req prev → ∃ rsp, f req = some rsp ∧ Xp.C04.hasFatal rsp.results = false ∧ rsp.reqs ≠ prev ∧
+      I { req with extra := rsp.reqs.map (fun p => (p.1, Xp.C04.fetch cluster p.2)), ctx := rsp.ctx } rsp.reqs)
+    (fuel : Nat) (req : Xp.C04.Request) (prev : List (String × Xp.C04.Sel)) (h0 : I req prev) :
+    (Xp.C04.runFetching cluster f fuel req prev).2 = .err := by
+  rw [Xp.C04.runFetching_err_iff]
+  induction fuel generalizing req prev with
+  | zero => trivial
+  | succ n ih =>
+    obtain ⟨rsp, h1, h2, h3, h4⟩ := hf req prev h0
+    exact Or.inr ⟨rsp, h1, h2, h3, ih _ _ h4⟩
+
+/-- the invariant form is satisfiable: a function that asks for an extra resource exactly when it
+was handed none flips its requirements in every round, for every iteration bound -/
+example (fuel : Nat) (req : Xp.C04.Request) (h : req.extra = []) :
+    (Xp.C04.runFetching [] (fun rq => some ⟨rq.desired, none, [], if rq.extra = [] then [("x", ⟨"K", "n", []⟩)] else [], [], []⟩)
+      fuel req []).2 = .err :=
+  never_stabilising_errs_inv [] _ (fun rq prev => (rq.extra = [] ↔ prev = []))
+    (fun rq prev hI => by
+      by_cases he : rq.extra = []
+      · refine ⟨_, rfl, rfl, ?_, ?_⟩
+        · simp [he, hI.mp he]
+        · simp [he]
+      · refine ⟨_, rfl, rfl, ?_, ?_⟩
+        · simp only [he, if_false]; intro h'; exact he (hI.mpr h'.symm)
+        · simp [he])
+    fuel req [] (by simp [h])
 
 /-- **Failure at any step index.** If the steps in front of step `s` succeed (whatever they
 do) and `s` lacks its credentials, or its call errors in some round, or its requirements
@@ -704,5 +739,169 @@ theorem pt_gc_unconditional_exactness_fails_witness :
   have : applied sem Plan.allOk 0 (reconcile (.pt gcTmpl [] "v1")) s =
       [.getXR, .getCached "KF" "xr-f", .statusUpdate (some 3)] := rfl
   rw [this]; simp
+
+/-! ### call skeletons regenerated from the source tree (Xp/Gen/C03Skel.lean) -/
+
+/-- `FetchingFunctionRunner.RunFunction`: call, fatal check, `reflect.DeepEqual`, fetch loop, context, exits -/
+theorem skeleton_run_function : Xp.Gen.c03SkelRunFunction = skelRunFunction := by decide
+/-- `ExistingExtraResourcesFetcher.Fetch`: nil check, by name (Get, NotFound ⇒ nil), by labels (List), unknown match -/
+theorem skeleton_fetch : Xp.Gen.c03SkelFetch = skelFetch := by decide
+/-- `DeletingComposedResourceGarbageCollector.GarbageCollectComposedResources` -/
+theorem skeleton_gc_fn : Xp.Gen.c03SkelGcFn = skelGcFn := by decide
+/-- `GarbageCollectingAssociator.AssociateTemplates` -/
+theorem skeleton_associate : Xp.Gen.c03SkelAssociate = skelAssociator := by decide
+/-- `ExistingComposedResourceObserver.ObserveComposedResources` -/
+theorem skeleton_observe : Xp.Gen.c03SkelObserve = skelObserver := by decide
+/-- `FunctionComposer.Compose` -/
+theorem skeleton_compose_fn : Xp.Gen.c03SkelComposeFn = skelComposeFn := by decide
+/-- the bound used by `runFunctionTop` is the constant of the source tree (and the one the C04 model uses) -/
+theorem max_iterations_tied : Xp.Gen.c03MaxRequirementsIterations = Xp.Gen.maxRequirementsIterations := by decide
+
+/-! ### `RunFunction` and `Fetch`, call by call, under every fault plan -/
+
+/-- `RunFunction` (with every `Fetch` it performs) only reads: under every fault plan the
+cluster is the same at every instant. -/
+theorem run_function_never_writes (f : XFn) (order : Reqs → Reqs) (fuel : Nat) (req : Xp.C04.Request) (prev : Option Reqs)
+    (tr : List Xp.C04.Request) (plan : Plan) (k : Nat) (cl : List Xp.C04.ClusterObj) :
+    ∀ s' ∈ reach fsem plan k (runFunctionP f order fuel req prev tr) cl, s' = cl :=
+  reach_inv fsem (fun s' => s' = cl) (fun _ => True)
+    (by intro s r hs _; rw [hs]; exact fexec_fst cl r) plan k _ (issues_any _) cl rfl
+
+/-- **An answer is accepted only if it is fatal or its requirements equal the previous round's**
+— under every fault plan, for every function, every map order and every bound: what
+`RunFunction` returns is the function's answer to the last request it was sent; every earlier
+round's answer was non-fatal, had requirements different from its predecessor's, all of which
+were fetched, and the next request carried exactly the cluster's answers to them (`Rounds`); and
+at most `MaxRequirementsIterations + 1` requests were sent. -/
+theorem run_function_accepts_only_stable (f : XFn) (order : Reqs → Reqs) (plan : Plan) (cl : List Xp.C04.ClusterObj)
+    (req : Xp.C04.Request) (tr' : List Xp.C04.Request) (rsp : Rsp)
+    (h : (run fsem plan 0 (runFunctionTop f order req) cl).2 = some (tr', .ok rsp)) :
+    ∃ n rq pv, Rounds f cl order n req none rq pv ∧ f rq = some rsp ∧
+      (Xp.C04.hasFatal rsp.base.results = true ∨ rsp.reqs = pv) ∧
+      n ≤ Xp.Gen.c03MaxRequirementsIterations ∧ tr'.length = n + 1 := by
+  obtain ⟨n, rq, pv, h1, h2, h3, h4, h5⟩ := runFunctionP_ok f order plan cl _ req none [] 0 tr' rsp h
+  exact ⟨n, rq, pv, h1, h2, h3, Nat.lt_succ_iff.mp h4, by simpa using h5⟩
+
+/-- the requirements an accepted, non-fatal answer is compared with are those of the previous
+round's (non-fatal) answer — or, in the first round, the nil requirements the loop starts with -/
+theorem run_function_previous_round {f : XFn} {cl : List Xp.C04.ClusterObj} {order : Reqs → Reqs} {n : Nat}
+    {req rq : Xp.C04.Request} {pv : Option Reqs} (h : Rounds f cl order n req none rq pv) :
+    n = 0 ∧ pv = none ∨ ∃ rq0 rsp0, f rq0 = some rsp0 ∧ rsp0.reqs = pv ∧ Xp.C04.hasFatal rsp0.base.results = false :=
+  rounds_prev h
+
+/-- **The bound holds however the call ends** (answer, error, any fault plan): the function is
+sent at most `MaxRequirementsIterations + 1` requests. -/
+theorem run_function_bounded (f : XFn) (order : Reqs → Reqs) (plan : Plan) (cl : List Xp.C04.ClusterObj)
+    (req : Xp.C04.Request) (tr' : List Xp.C04.Request) (r : RunResult)
+    (h : (run fsem plan 0 (runFunctionTop f order req) cl).2 = some (tr', r)) :
+    tr'.length ≤ Xp.Gen.c03MaxRequirementsIterations + 1 := by
+  simpa using runFunctionP_bounded f order plan cl _ req none [] 0 tr' r h
+
+/-- **A failed read of an extra resource is never swallowed.** If any Get / List issued by
+`RunFunction` is answered with an error (fault `fail` or `conflict`, at any call index), the call
+ends in an error — never in an answer computed from partial extra resources. -/
+theorem run_function_fault_never_swallowed (f : XFn) (order : Reqs → Reqs) (fuel : Nat) (req : Xp.C04.Request)
+    (prev : Option Reqs) (tr : List Xp.C04.Request) (plan : Plan) (k : Nat) (cl : List Xp.C04.ClusterObj)
+    (hf : ∃ e ∈ callLog fsem plan k (runFunctionP f order fuel req prev tr) cl, e.2.1 = .fail ∨ e.2.1 = .conflict)
+    (t : List Xp.C04.Request) (r : RunResult)
+    (hr : (run fsem plan k (runFunctionP f order fuel req prev tr) cl).2 = some (t, r)) : r = .err :=
+  (abortsOnErr_runFunctionP f order fuel req prev tr).run plan k cl hf t r hr
+
+/-- **The call-by-call model refines to the pure interpreter.** On a fault-free run, for a
+function of the C04 model (whose selectors match by name or by labels, not both), `runFunctionP`
+sends the same requests and ends the same way as `Xp.C04.runFetching` — so the pipeline theorems
+above (`fetching_errs_iff`, `pipeline_fails_iff`, …) speak about the loop modelled here. -/
+theorem run_function_refines_interpreter (f : Xp.C04.Fn) (hwf : ∀ rq r, f rq = some r → WFReqs r.reqs)
+    (cl : List Xp.C04.ClusterObj) (fuel : Nat) (req : Xp.C04.Request) :
+    (run fsem Plan.allOk 0 (runFunctionP (liftFn f) id fuel req none []) cl).2 =
+      some ((Xp.C04.runFetching cl f fuel req []).1, liftOutcome (Xp.C04.runFetching cl f fuel req []).2) := by
+  have := runFunctionP_allOk f hwf cl fuel req [] [] 0 (by intro p hp; cases hp)
+  simpa [ofReqs] using this
+
+/-- a by-name `Fetch` of a missing object hands the function a nil entry and is NOT an error;
+unknown / nil selectors are errors without any call -/
+theorem fetch_outcomes (cl : List Xp.C04.ClusterObj) (kind n : String) (c : Option Fetched → Prog FReq FResp Nat) (k : Nat) :
+    (cl.any (fun o => o.kind = kind ∧ o.name = n) = false →
+      run fsem Plan.allOk k (fetchP (some ⟨kind, .name n⟩) c) cl = run fsem Plan.allOk (k + 1) (c (some none)) cl) ∧
+    fetchP (some ⟨kind, .unset⟩) c = c none ∧ fetchP none c = c none := by
+  refine ⟨fun h => ?_, rfl, rfl⟩
+  rw [run_fetchP_ok Plan.allOk k cl ⟨kind, .name n⟩ c rfl rfl]
+  simp only [fetchVal, h]
+  rfl
+
+/-! non-vacuity of the `RunFunction` theorems -/
+
+/-- asks for `x` by name until it is handed something for `x`; the second answer repeats the
+requirements and is accepted -/
+def exStableFn : XFn := fun rq =>
+  some ⟨⟨rq.desired, none, [], [], [], []⟩, some [("x", some ⟨"K", .name "n"⟩)]⟩
+/-- present-but-empty requirements: not equal to the nil requirements of round 0, so a second call is made -/
+def exEmptyFn : XFn := fun rq => some ⟨⟨rq.desired, none, [], [], [], []⟩, some []⟩
+def exReq : Xp.C04.Request := ⟨[], [], none, [], [], "", []⟩
+def exCluster : List Xp.C04.ClusterObj := [⟨"K", "n", []⟩]
+
+/-- fault-free: two calls, one Get, accepted (hypothesis of `run_function_accepts_only_stable`) -/
+example : ∃ tr rsp, (run fsem Plan.allOk 0 (runFunctionTop exStableFn id exReq) exCluster).2 = some (tr, .ok rsp) ∧
+    tr.length = 2 ∧ (tr.getLast?.map (·.extra)) = some [("x", some ["n"])] := ⟨_, _, rfl, rfl, rfl⟩
+/-- the same with the Get failing: the call ends in an error (hypothesis of `run_function_fault_never_swallowed`) -/
+example : (callLog fsem (Plan.at 0 .fail) 0 (runFunctionTop exStableFn id exReq) exCluster).map (·.2.1) = [.fail] ∧
+    ∃ tr, (run fsem (Plan.at 0 .fail) 0 (runFunctionTop exStableFn id exReq) exCluster).2 = some (tr, .err) :=
+  ⟨rfl, _, rfl⟩
+/-- present-but-empty requirements cost a second call (nil ≠ empty under `reflect.DeepEqual`) -/
+example : ∃ tr rsp, (run fsem Plan.allOk 0 (runFunctionTop exEmptyFn id exReq) exCluster).2 = some (tr, .ok rsp) ∧ tr.length = 2 :=
+  ⟨_, _, rfl, rfl⟩
+/-- `Rounds` with one round played -/
+example : Rounds exStableFn exCluster id 1 exReq none { exReq with extra := [("x", some ["n"])] } (some [("x", some ⟨"K", .name "n"⟩)]) :=
+  Rounds.next (f := exStableFn) ⟨⟨[], none, [], [], [], []⟩, some [("x", some ⟨"K", .name "n"⟩)]⟩ rfl rfl (by decide)
+    (by intro p hp; simp at hp; subst hp; rfl) (Rounds.here _ _)
+/-- `run_function_refines_interpreter` applies to a function with requirements -/
+example : ∀ rq r, exOkFn rq = some r → WFReqs r.reqs := by
+  intro rq r h p hp; simp [exOkFn] at h; subst h; cases hp
+
+/-! ### the function composer's collector with its controller check -/
+
+/-- **The composer built on the collector WITH its controller check is the composer of the
+theorems above**: the real observer never lets a foreign-controlled resource into the
+observation, so the check never decides. Every theorem about `composeFn` / `reconcile (.fn …)`
+(no write on failure, only undesired resources targeted, exactness) is therefore a theorem
+about the code including `errFmtControllerMismatch`. -/
+theorem compose_with_controller_check_eq (lrv : Nat) (refs : List Ref) (out : Obs → FnOut) (ch : Choices)
+    (hgc : ∀ l x, x ∈ ch.gcOrder l → x ∈ l) :
+    composeFnFull lrv refs out ch = composeFn lrv refs out ch :=
+  composeFnFull_eq lrv refs out ch hgc
+
+/-- **The collector itself never touches what someone else controls**, whatever it is handed
+(even a list no real observation can be): every update / delete request it can issue, under any
+fault plan, targets an entry that is not controlled by another owner. -/
+theorem gc_collector_spares_foreign (lrv : Nat) (os : List CObj) (k : P) (plan : Plan) (i : Nat) (s : St)
+    (hk : Issues NoGc k) :
+    ∀ e ∈ callLog sem plan i (gcFnFull lrv os k) s, ∀ kind name,
+      (e.1 = .delete kind name ∨ e.1 = .gcUpdate kind name) → ∃ o ∈ os, o.kind = kind ∧ o.name = name ∧ o.ctrl ≠ .other := by
+  let Q : Req → Prop := fun r => ∀ kind name, (r = .delete kind name ∨ r = .gcUpdate kind name) →
+    ∃ o ∈ os, o.kind = kind ∧ o.name = name ∧ o.ctrl ≠ .other
+  have hQ : ∀ r, NoGc r → Q r := by
+    intro r hr kind name h
+    rcases h with rfl | rfl <;> exact absurd hr (by simp [NoGc])
+  have hiss : Issues Q (gcFnFull lrv os k) := by
+    apply issues_gcFnFull lrv k (hQ _ trivial) (hk.mono hQ)
+    intro o ho hc
+    constructor
+    · intro kind name h
+      rcases h with h | h
+      · cases h
+      · cases h; exact ⟨o, ho, rfl, rfl, hc⟩
+    · intro kind name h
+      rcases h with h | h
+      · cases h; exact ⟨o, ho, rfl, rfl, hc⟩
+      · cases h
+  exact callLog_emits sem Q plan _ i s (hiss.emits s)
+
+/-- a list with a foreign-controlled entry between two collectable ones: the first is collected,
+the collection stops at the foreign one, the third is not touched -/
+example : (callLog sem Plan.allOk 0 (gcFnFull 3 [gcObjB, gcObjF, gcObjA] (.ret .success)) gcStore).map (·.1) =
+    [.gcUpdate "KB" "xr-b", .delete "KB" "xr-b", .statusUpdate (some 3)] := rfl
+
+example : composeFnFull 3 gcStore.refs gcOut gcCh = composeFn 3 gcStore.refs gcOut gcCh :=
+  compose_with_controller_check_eq 3 _ gcOut gcCh (fun _ _ h => h)
 
 end Xp.C03
